@@ -1,8 +1,212 @@
-//! C04 — stub, to be written.
+//! C04: fused variable flips act as input/output bit inversion.
+//!
+//! Case kinds (inputs => observed):
+//!   C04.bin <table9> <conn> <L> <R> <fl> <fr> <fo>            => <fused> <separate>
+//!   C04.ter <table27> <conn> <A> <B> <C> <fa> <fb> <fc> <fo>  => <fused> <separate>
+//! `fused` is the result of `fused_binary_flip_op` / `fused_ternary_flip_op`; `separate` is the result of
+//! performing every flip as its own library call (`flip x b := fused_binary_flip_op((b, x), (true, -), -, and)`),
+//! then the plain operator, then the output flip. A panic is the outcome `panic`.
 #[path = "../common.rs"]
 mod common;
 use common::*;
+use biodivine_lib_bdd::*;
 
-pub fn run(key: &str, _a: &[String], _out: &mut Out) { panic!("unknown key {}", key) }
-pub fn gen(_tier: Tier, _rng: &mut Rng64, _out: &mut Out) {}
+fn s(x: &str) -> String { x.to_string() }
+
+fn parse_flip(x: &str) -> Option<usize> { if x == "-" { None } else { Some(x.parse().unwrap()) } }
+
+/// must be called under `catch`: `BddVariable::from_index` itself is part of the observed behaviour
+fn flip_var(f: Option<usize>) -> Option<BddVariable> { f.map(BddVariable::from_index) }
+
+/// a single flip as a separate step
+fn flip_sep(b: &Bdd, f: Option<usize>) -> Bdd {
+    match f {
+        None => b.clone(),
+        Some(x) => Bdd::fused_binary_flip_op(
+            (b, Some(BddVariable::from_index(x))),
+            (&Bdd::from_string(&format!("|{0},0,0|{0},1,1|", b.num_vars())), None),
+            None,
+            op_function::and,
+        ),
+    }
+}
+
+pub fn run(key: &str, a: &[String], out: &mut Out) {
+    match key {
+        "C04.bin" => {
+            let (l, r) = (Bdd::from_string(&a[2]), Bdd::from_string(&a[3]));
+            let (fl, fr, fo) = (parse_flip(&a[4]), parse_flip(&a[5]), parse_flip(&a[6]));
+            let fused = catch(|| Bdd::fused_binary_flip_op((&l, flip_var(fl)), (&r, flip_var(fr)), flip_var(fo), table_fn(&a[0])));
+            let sep = catch(|| {
+                let l2 = flip_sep(&l, fl);
+                let r2 = flip_sep(&r, fr);
+                let g = Bdd::binary_op(&l2, &r2, table_fn(&a[0]));
+                flip_sep(&g, fo)
+            });
+            out.case(key, a, &[fmt_res_bdd(&fused), fmt_res_bdd(&sep)]);
+        }
+        "C04.ter" => {
+            let (x, y, z) = (Bdd::from_string(&a[2]), Bdd::from_string(&a[3]), Bdd::from_string(&a[4]));
+            let (fa, fb, fc, fo) = (parse_flip(&a[5]), parse_flip(&a[6]), parse_flip(&a[7]), parse_flip(&a[8]));
+            let fused = catch(|| Bdd::fused_ternary_flip_op((&x, flip_var(fa)), (&y, flip_var(fb)), (&z, flip_var(fc)), flip_var(fo), table3_fn(&a[0])));
+            let sep = catch(|| {
+                let x2 = flip_sep(&x, fa);
+                let y2 = flip_sep(&y, fb);
+                let z2 = flip_sep(&z, fc);
+                let g = Bdd::ternary_op(&x2, &y2, &z2, table3_fn(&a[0]));
+                flip_sep(&g, fo)
+            });
+            out.case(key, a, &[fmt_res_bdd(&fused), fmt_res_bdd(&sep)]);
+        }
+        _ => panic!("unknown key {}", key),
+    }
+}
+
+/// flip choices over n variables: none and every variable
+fn flips(n: usize) -> Vec<Option<usize>> {
+    let mut v = vec![None];
+    for i in 0..n { v.push(Some(i)); }
+    v
+}
+
+fn some_table2(rng: &mut Rng64, c: u32) -> String {
+    match rng.below(3) { 0 => eager_table2(c), 1 => lazy_table2(c), _ => random_table2(rng, c) }
+}
+fn some_table3(rng: &mut Rng64, c: u32) -> String {
+    match rng.below(3) { 0 => eager_table3(c), 1 => lazy_table3(c), _ => random_table3(rng, c) }
+}
+
+fn bin(table: String, c: u32, l: &str, r: &str, fl: Option<usize>, fr: Option<usize>, fo: Option<usize>, out: &mut Out) {
+    run("C04.bin", &[table, c.to_string(), s(l), s(r), fmt_optvar(fl), fmt_optvar(fr), fmt_optvar(fo)], out);
+}
+
+/// connectives used for the "several tables" sweeps: and, or, xor, imp, and_not, nand, a projection
+const CONNS: [u32; 7] = [8, 14, 6, 11, 4, 7, 12];
+
+pub fn gen(tier: Tier, rng: &mut Rng64, out: &mut Out) {
+    let thorough = tier == Tier::Thorough;
+    // --- n <= 2: all pairs x all flip choices (incl. one out-of-range value) x one random consistent table
+    for n in 0..=2usize {
+        let count = 1u64 << (1u64 << n);
+        let mut fs = flips(n);
+        fs.push(Some(n)); // out of range: panic
+        for t1 in 0..count { for t2 in 0..count {
+            let l = fmt_bdd(&bdd_of_tt(n, &tt_from_index(n, t1)));
+            let r = fmt_bdd(&bdd_of_tt(n, &tt_from_index(n, t2)));
+            for fl in &fs { for fr in &fs { for fo in &fs {
+                let oor = [fl, fr, fo].iter().any(|f| **f == Some(n));
+                if oor && !(thorough || rng.chance(1, 6)) { continue; }
+                let c = rng.below(16) as u32;
+                bin(some_table2(rng, c), c, &l, &r, *fl, *fr, *fo, out);
+            } } }
+        } }
+    }
+    // --- n = 3: pairs (sampled in quick, all in thorough) x tables x all 4^3 flip choices
+    let all3: Vec<String> = (0..256u64).map(|t| fmt_bdd(&bdd_of_tt(3, &tt_from_index(3, t)))).collect();
+    let fs3 = flips(3);
+    if thorough {
+        // every pair: 6 sampled flip configurations with a random table
+        for a in 0..256usize { for b in 0..256usize {
+            for _ in 0..6 {
+                let c = rng.below(16) as u32;
+                bin(some_table2(rng, c), c, &all3[a], &all3[b], *rng.pick(&fs3), *rng.pick(&fs3), *rng.pick(&fs3), out);
+            }
+        } }
+    }
+    let full_pairs = if thorough { 1500 } else { 40 };
+    for _ in 0..full_pairs {
+        let (l, r) = (rng.pick(&all3).clone(), rng.pick(&all3).clone());
+        // all 64 flip choices, for several tables of several connectives
+        let k = if thorough { 5 } else { 3 };
+        for j in 0..k {
+            let c = if j == 0 { rng.below(16) as u32 } else { *rng.pick(&CONNS) };
+            let table = match j % 3 { 0 => eager_table2(c), 1 => lazy_table2(c), _ => random_table2(rng, c) };
+            for fl in &fs3 { for fr in &fs3 { for fo in &fs3 {
+                bin(table.clone(), c, &l, &r, *fl, *fr, *fo, out);
+            } } }
+        }
+    }
+    // --- flips on variables that neither operand mentions: operands over n = 4 depending on x1, x2 only
+    let rounds = if thorough { 4000 } else { 150 };
+    for _ in 0..rounds {
+        let n = 4usize;
+        let f = |rng: &mut Rng64| -> String {
+            let inner: u64 = rng.below(16);
+            let tt: Vec<bool> = (0..16usize).map(|i| (inner >> ((i >> 1) & 3)) & 1 == 1).collect();
+            fmt_bdd(&bdd_of_tt(n, &tt))
+        };
+        let (l, r) = (f(rng), f(rng));
+        let c = *rng.pick(&CONNS);
+        let unused = [Some(0usize), Some(3usize)];
+        bin(some_table2(rng, c), c, &l, &r, *rng.pick(&unused), *rng.pick(&unused), *rng.pick(&unused), out);
+        bin(some_table2(rng, c), c, &l, &r, *rng.pick(&flips(n)), *rng.pick(&unused), *rng.pick(&flips(n)), out);
+    }
+    // --- random operands over 4..6 variables (shared sub-diagrams, skipped levels, non-canonical operands)
+    let rounds = if thorough { 60000 } else { 2500 };
+    for _ in 0..rounds {
+        let n = 4 + rng.below(3) as usize;
+        let mut l = random_bdd(rng, n);
+        let mut r = random_bdd(rng, n);
+        if rng.chance(1, 6) { l = noncanon_variant(rng, &l); }
+        if rng.chance(1, 6) { r = noncanon_variant(rng, &r); }
+        let (ls, rs) = (fmt_bdd(&l), fmt_bdd(&r));
+        let fs = flips(n);
+        let c = rng.below(16) as u32;
+        let pickf = |rng: &mut Rng64| if rng.chance(1, 5) { None } else { *rng.pick(&fs) };
+        let (fl, fr, fo) = (pickf(rng), pickf(rng), pickf(rng));
+        bin(some_table2(rng, c), c, &ls, &rs, fl, fr, fo, out);
+        if rng.chance(1, 4) {
+            // equal flip variables everywhere
+            let x = Some(rng.below(n as u64) as usize);
+            bin(some_table2(rng, c), c, &ls, &rs, x, x, x, out);
+        }
+    }
+    // --- panics: out-of-range flips (any position) and operands with different variable counts
+    let rounds = if thorough { 3000 } else { 200 };
+    for _ in 0..rounds {
+        let n = 1 + rng.below(5) as usize;
+        let (ls, rs) = (fmt_bdd(&random_bdd(rng, n)), fmt_bdd(&random_bdd(rng, n)));
+        let bad = [Some(n), Some(n + 1), Some(n + 7), Some(65535usize)];
+        let fs = flips(n);
+        let pos = rng.below(3);
+        let f = |rng: &mut Rng64, i: u64| if i == pos { *rng.pick(&bad) } else if rng.bool() { None } else { *rng.pick(&fs) };
+        let (fl, fr, fo) = (f(rng, 0), f(rng, 1), f(rng, 2));
+        let c = rng.below(16) as u32;
+        bin(some_table2(rng, c), c, &ls, &rs, fl, fr, fo, out);
+        if rng.chance(1, 4) {
+            let m = n + 1 + rng.below(2) as usize;
+            let other = fmt_bdd(&random_bdd(rng, m));
+            // a flip that is in range for one operand only
+            bin(some_table2(rng, c), c, &ls, &other, None, Some(n), None, out);
+            bin(some_table2(rng, c), c, &other, &rs, *rng.pick(&fs), None, None, out);
+        }
+    }
+    // --- ternary: small universes with sampled flip choices (4^4), random operands over 4..5 variables
+    let rounds = if thorough { 120000 } else { 5000 };
+    for i in 0..rounds {
+        let n = if i % 5 == 4 { 4 + rng.below(2) as usize } else { rng.below(4) as usize };
+        let f = |rng: &mut Rng64| -> String {
+            if n <= 3 { let count = 1u64 << (1u64 << n); fmt_bdd(&bdd_of_tt(n, &tt_from_index(n, rng.below(count)))) }
+            else { fmt_bdd(&random_bdd(rng, n)) }
+        };
+        let (x, y, z) = (f(rng), f(rng), f(rng));
+        let mut fs = flips(n);
+        if rng.chance(1, 12) { fs.push(Some(n)); } // sometimes out of range: panic
+        let c3 = rng.below(256) as u32;
+        run("C04.ter", &[some_table3(rng, c3), c3.to_string(), x, y, z,
+            fmt_optvar(*rng.pick(&fs)), fmt_optvar(*rng.pick(&fs)), fmt_optvar(*rng.pick(&fs)), fmt_optvar(*rng.pick(&fs))], out);
+    }
+    // ternary: all 4^4 flip choices for a few triples over 3 variables
+    let triples = if thorough { 60 } else { 3 };
+    for _ in 0..triples {
+        let (x, y, z) = (rng.pick(&all3).clone(), rng.pick(&all3).clone(), rng.pick(&all3).clone());
+        let c3 = rng.below(256) as u32;
+        let table = some_table3(rng, c3);
+        for fa in &fs3 { for fb in &fs3 { for fc in &fs3 { for fo in &fs3 {
+            run("C04.ter", &[table.clone(), c3.to_string(), x.clone(), y.clone(), z.clone(),
+                fmt_optvar(*fa), fmt_optvar(*fb), fmt_optvar(*fc), fmt_optvar(*fo)], out);
+        } } } }
+    }
+}
+
 fn main() { harness_main(gen, run) }
